@@ -228,6 +228,8 @@ def outcome(resp):
 EXPLORE = bool(os.environ.get("C05_EXPLORE"))     # development aid: report every distinct signature once and go on
 ONLY = [x for x in os.environ.get("C05_PARTS", "").split(",") if x]   # development aid: run only these parts
 _EXPLORED = {}
+DEEP_OK = [True]   # False while the type of a list nested 200 deep cannot be computed: such values are then left out of the sweeps
+_HUNG = set()      # classes that hung / killed the process in this run: the same shape is not probed again at a larger depth
 
 
 def judge_case(ctx, case, resps, prof):
@@ -248,6 +250,8 @@ def judge_case(ctx, case, resps, prof):
             sample = {"text": show(case["t"], 120), "entry": req.get("entry"), "outcome": oc, "class": case.get("cls")}
         ctx.note(key=[case["t"], req.get("entry"), case.get("sk", "")] if prof == "release" else None,
                  nontrivial=nontrivial and prof == "release", labels=labels, sample=sample)
+        if f is not None and (f.sig.startswith("C05/hang/") or f.sig.startswith("C05/abort/")):
+            _HUNG.add(case.get("cls"))
         if f is not None and EXPLORE:
             if f.sig in _EXPLORED:
                 _EXPLORED[f.sig] += 1
@@ -532,8 +536,8 @@ def gen_unicode(src):
 # source 3: argument sweeps for every built-in
 # ------------------------------------------------------------------------------------------------------------------
 
-BIGLIST = {"feel": "for i in 1..1000 return i"}
-BIGLIST_DUP = {"feel": "for i in 1..1000 return modulo(i, 7)"}
+BIGLIST = {"l": [{"n": str(i)} for i in range(1, 1001)]}          # (a FEEL `for` would cost O(n^2) per request: `partial` is copied every iteration)
+BIGLIST_DUP = {"l": [{"n": str(i % 7)} for i in range(1, 1001)]}
 BIGSTR = {"s": "a" * 1000}
 
 
@@ -583,7 +587,7 @@ STRS = [
 OTHERS = [
     ("null", None, "null"), ("true", True, "true"), ("false", False, "false"),
     ("[]", {"l": []}, "[]"), ("[1]", {"l": [N(1)]}, "[1]"), ("[1,2,3]", {"l": [N(1), N(2), N(3)]}, "[1,2,3]"), ("list1000", BIGLIST, None),
-    ("list1000dup", BIGLIST_DUP, None), ("nested", {"l": [N(1), {"l": [N(2), {"l": [N(3), {"l": []}]}]}]}, "[1,[2,[3,[]]]]"), ("nest200", nest_list(200), None),
+    ("list1000dup", BIGLIST_DUP, None), ("nested", {"l": [N(1), {"l": [N(2), {"l": [N(3), {"l": []}]}]}]}, "[1,[2,[3,[]]]]"), ("nest16", nest_list(16), None), ("nest200", nest_list(200), None),
     ("[null]", {"l": [None]}, "[null]"), ("mixed", {"l": [N(1), {"s": "a"}, True, None, {"l": []}, {"c": []}]}, None),
     ("[\"b\",\"a\"]", {"l": [{"s": "b"}, {"s": "a"}]}, None), ("[true,false]", {"l": [True, False]}, None), ("[ctx]", {"l": [{"c": [["a", N(1)]]}, {"c": [["a", N(2)]]}]}, None),
     ("[1,1,2,2]", {"l": [N(1), N(1), N(2), N(2)]}, None), ("[big,-big]", {"l": [N("9E+6144"), N("9E+6144"), N("-9E+6144")]}, None),
@@ -837,6 +841,10 @@ def enum_sweeps(ctx):
             for i, kind in enumerate(sig):
                 values = [(lab, b, lit) for lab, b, lit in ALPHABET] + [("kind:" + kind, b, None) for b in kind_values(kind)[1]]
                 for vi, (lab, b, lit) in enumerate(values):
+                    if lab == "nest200" and not DEEP_OK[0]:
+                        continue
+                    if not ctx.thorough() and vi < len(ALPHABET) and lab not in CORE and (vi + i + ctx.seed) % 3:
+                        continue      # quick: the core extremes, the kind's own values and a seed-rotated third of the rest
                     args = list(base)
                     args[i] = b
                     w = wraps[vi % len(wraps)] if vi >= len(ALPHABET) or fname in TEMPORAL_FUNCS else wraps[0]
@@ -876,7 +884,9 @@ def gen_sweep(src):
         elif how == "core":
             _, b, lit = ALPHABET[AIDX[src.choice(CORE)]]
         else:
-            _, b, lit = src.choice(ALPHABET)
+            lab, b, lit = src.choice(ALPHABET)
+            if lab == "nest200" and not DEEP_OK[0]:
+                b = nest_list(16)
         args.append(b)
         inline.append(lit if (lit is not None and src.bool(0.3)) else None)
     wrap = src.weighted([(6, "{X}"), (2, "string({X})"), (4, None)])
@@ -889,13 +899,13 @@ def gen_sweep(src):
 
 OPS2 = ["+", "-", "*", "/", "**", "=", "!=", "<", "<=", ">", ">=", "and", "or", "in"]
 MATRIX = ["0", "1", "-1", "0.5", "2^63", "2^64", "1E+6000", "-1E+6000", "1E-6000", "max", "-0", "10^34-1", "\"\"", "\"abc\"", "str1000", "null", "true", "false", "[]", "[1,2,3]",
-          "nested", "nest200", "{}", "{a:1}", "ctx200", "range", "range-rev", "range-date", "fn2", "bif", "date", "date-max", "date-min", "time", "time-z", "time-off",
+          "nested", "nest16", "nest200", "{}", "{a:1}", "ctx200", "range", "range-rev", "range-date", "fn2", "bif", "date", "date-max", "date-min", "time", "time-z", "time-off",
           "time-zone", "dt", "dt-z", "dt-off", "dt-zone", "dt-max", "dt-min", "dt-262143", "dt-262144", "dtd", "dtd-neg", "dtd-max", "dtd-2^63s", "dtd-0", "ymd", "ymd-neg",
           "ymd-big", "ymd-i64max"]
 
 
 def enum_matrix(ctx):
-    vals = [ALPHABET[AIDX[k]] for k in MATRIX]
+    vals = [ALPHABET[AIDX[k]] for k in MATRIX if k != "nest200" or DEEP_OK[0]]
     # unary forms first
     for lab, b, _ in vals:
         for t in ("-a", "a", "not(a)", "a[1]", "a[-1]", "a[0]", "a[a]", "a.a", "a instance of number", "a instance of list<Any>", "string(a)", "[a]", "{k: a}.k",
@@ -949,12 +959,31 @@ def shapes():
     ]
 
 
-def enum_ramps(ctx):
-    scope = [[["c", nest_ctx(200)], ["x", N(1)]]]
-    for d in DEPTHS:
-        for name, f in shapes():
-            text = f(d)
-            entries = ["textual", "expression", "boxed"]
+RAMP_BUDGET = 0.5     # a 200-deep text parses and evaluates in milliseconds
+
+DEEP_PROBE = "v instance of list<Any>"
+DEEP_CLS = "nesting:values-type-of"
+
+
+def ramp_case(text, entries, scope, cls, labels):
+    return {"t": text, "es": entries, "s": scope, "sk": "ramp", "cls": cls, "k": 10 ** 6, "part": "ramp", "labels": labels, "budget": RAMP_BUDGET}
+
+
+def enum_ramps(ctx, d):
+    """All shapes at depth d. A shape that hung or killed the process at a smaller depth is not repeated (it would only add the
+    cost of another confirmation)."""
+    for name, f in shapes():
+        # the context bound to `c` is at most 50 deep: the lexer flattens all keys of the scope for every name token, which is
+        # polynomial (about 30 ms per token for a 200-deep context): legitimate, but too slow for 200 tokens in the quick tier
+        scope = [[["c", nest_ctx(min(d, 50))], ["x", N(1)]]] if name == "paths" else [[["x", N(1)]]]
+        cls = "nesting:" + name
+        if cls in _HUNG:
+            ctx.classes["ramp-skipped-after-hang-at-smaller-depth:" + name] += 1
+            continue
+        text = f(d)
+        entries = ["textual"]
+        if d in (DEPTHS[0], DEPTHS[-1]):
+            entries += ["expression", "boxed"]
             if name in ("contexts", "context-wide"):
                 entries.append("context")
             if name in ("unary-tests-wide", "parens", "unary-minus", "not", "in", "range", "lists"):
@@ -963,13 +992,16 @@ def enum_ramps(ctx):
                 entries.append("textuals")
             if name in ("name-parts", "name-symbols", "paths"):
                 entries += ["name", "longest_name"]
-            yield {"t": text, "es": entries, "s": scope, "sk": "ramp", "cls": "nesting:" + name, "k": 10 ** 6, "part": "ramp",
-                   "labels": ["depth:%d" % d, "shape:" + name]}
-    # values nested 200 deep handed to built-ins through the scope
+        yield ramp_case(text, entries, scope, cls, ["depth:%d" % d, "shape:" + name])
+
+
+def enum_deep_values(ctx, d):
+    """Values nested d deep handed to built-ins and operators through the scope."""
+    scope = [[["v", nest_list(d)], ["w", nest_ctx(d)]]]
     for f in ("flatten(v)", "string(v)", "v = v", "count(v)", "distinct values(v)", "v[1]", "v.a", "get entries(w)", "string(w)", "w = w", "w.a", "[v, w]",
-              "union(v, v)", "index of(v, v)", "list contains(v, 1)", "v instance of list<Any>", "w instance of context<a: Any>", "for i in v return i", "sort(v, function(a,b) a < b)"):
-        yield {"t": f, "es": ["textual"], "s": [[["v", nest_list(200)], ["w", nest_ctx(200)]]], "sk": "ramp", "cls": "nesting:values", "k": 10 ** 6, "part": "ramp",
-               "labels": ["depth:200", "shape:values"]}
+              "union(v, v)", "index of(v, v)", "list contains(v, 1)", "w instance of context<a: Any>", "for i in v return i", "sort(v, function(a,b) a < b)",
+              "abs(v)", "v + 1", "v < v", "v in v", "v instance of number", "w instance of number", "abs(w)", "append(v, v)", "reverse(v)", "sum(v)", "max(v)", "v[v]"):
+        yield ramp_case(f, ["textual"], scope, "nesting:values", ["depth:%d" % d, "shape:values"])
 
 
 # ------------------------------------------------------------------------------------------------------------------
@@ -1127,8 +1159,21 @@ def run(ctx):
         ctx.enumerate(ctx.p_iter, enum_iteration(ctx, True), name="iteration ranges ending at isize::MAX/MIN, recursion depth 10^4 and 10^5", batch=1)
         for prof in ("release", "checked"):
             ctx.driver(prof).timeout = _budget(ctx)
+    if want(ctx.p_ramp) or want(ctx.p_sweep) or want(ctx.p_rsweep) or want(ctx.p_matrix):
+        for prof in ("release", "checked"):
+            ctx.driver(prof).timeout = RAMP_BUDGET
+        # one probe decides whether values nested 200 deep can be used as arguments everywhere (they cannot while type_of is exponential)
+        ctx.enumerate(ctx.p_ramp, [ramp_case(DEEP_PROBE, ["textual"], [[["v", nest_list(200)]]], DEEP_CLS, ["depth:200", "shape:values-type-of"])],
+                      name="type of a list nested 200 deep", batch=1)
+        ctx.deep = 200 if DEEP_CLS not in _HUNG else 16
+        DEEP_OK[0] = ctx.deep == 200
+        ctx.extra["deep_argument_depth"] = ctx.deep
     if want(ctx.p_ramp):
-        ctx.enumerate(ctx.p_ramp, enum_ramps(ctx), name="nesting shapes x depths 10/50/100/200 x entry points", batch=100, exhaustive=True)
+        for d in DEPTHS:
+            ctx.enumerate(ctx.p_ramp, enum_ramps(ctx, d), name="nesting shapes x entry points at depth %d" % d, batch=1000, exhaustive=True)
+        ctx.enumerate(ctx.p_ramp, enum_deep_values(ctx, ctx.deep), name="built-ins and operators on values nested %d deep" % ctx.deep, batch=1000)
+    for prof in ("release", "checked"):
+        ctx.driver(prof).timeout = _budget(ctx)
     if want(ctx.p_harvested):
         ctx.enumerate(ctx.p_harvested, enum_harvested(ctx), name="every harvested text through its own entry point and scope", exhaustive=True)
     if want(ctx.p_sweep):
